@@ -26,6 +26,11 @@ use crate::walk::{Walk, Walker};
 /// of types that embed a version-packed codec or a `Program`
 pub const FIX_BYTES: usize = 64;
 
+/// choice bytes given to each component of a combinator whose generator hands
+/// "the rest" to `Unstructured` (a fixed amount: the meaning of a choice
+/// sequence must not depend on its length)
+pub const SHARE: usize = 256;
+
 pub trait Generate: Sized {
     /// the generator hands the *rest* of the choice sequence to
     /// `arbitrary::Unstructured`; combinators then give each component its own
@@ -216,7 +221,16 @@ where
     T: for<'a> Arbitrary<'a> + Walk,
 {
     let fix = if T::HAS_FIX { Some(s.sub(FIX_BYTES)) } else { None };
-    let mut u = s.unstructured();
+    // `Unstructured` is sensitive to the *length* of its data (collection
+    // lengths are read from the end), whereas a choice sequence must mean the
+    // same with or without trailing zeros (the engine strips them when it
+    // minimises a failing case): canonicalise by dropping trailing zeros.
+    let rest = s.unstructured();
+    let mut data: &[u8] = rest.peek_bytes(rest.len()).unwrap_or(&[]);
+    while let [head @ .., 0] = data {
+        data = head;
+    }
+    let mut u = Unstructured::new(data);
     let mut v = match T::arbitrary(&mut u) {
         Ok(v) => v,
         Err(_) => T::arbitrary(&mut Unstructured::new(&[0u8; 64]))
@@ -505,11 +519,10 @@ impl<T: Generate> Generate for Vec<T> {
     fn generate(s: &mut Src<'_>) -> Self {
         let n = s.weighted(&[4, 4, 3, 2, 1, 1, 1]);
         let n = if n == 6 && !T::TAKES_REST { 6 + s.below(20) } else { n };
-        if T::TAKES_REST && n > 0 {
-            let share = s.remaining() / n;
+        if T::TAKES_REST {
             (0..n)
                 .map(|_| {
-                    let mut sub = s.sub(share);
+                    let mut sub = s.sub(SHARE);
                     T::generate(&mut sub)
                 })
                 .collect()
@@ -523,10 +536,9 @@ impl<T: Generate + Copy + Default, const N: usize> Generate for [T; N] {
     const TAKES_REST: bool = T::TAKES_REST;
     fn generate(s: &mut Src<'_>) -> Self {
         let mut r = [T::default(); N];
-        let share = s.remaining() / N.max(1);
         for v in &mut r {
             *v = if T::TAKES_REST {
-                let mut sub = s.sub(share);
+                let mut sub = s.sub(SHARE);
                 T::generate(&mut sub)
             } else {
                 T::generate(s)
@@ -541,15 +553,15 @@ macro_rules! gen_tuple {
         impl<$($t: Generate),+> Generate for ($($t,)+) {
             const TAKES_REST: bool = $($t::TAKES_REST)||+;
             fn generate(s: &mut Src<'_>) -> Self {
-                if Self::TAKES_REST {
-                    let share = s.remaining() / $n;
-                    ($({
-                        let mut sub = s.sub(share);
+                let _ = $n;
+                ($({
+                    if $t::TAKES_REST {
+                        let mut sub = s.sub(SHARE);
                         $t::generate(&mut sub)
-                    },)+)
-                } else {
-                    ($($t::generate(s),)+)
-                }
+                    } else {
+                        $t::generate(s)
+                    }
+                },)+)
             }
         }
     };
